@@ -17,6 +17,10 @@ _CMPS = {ast.Eq: '==', ast.NotEq: '!=', ast.Lt: '<', ast.LtE: '<=', ast.Gt: '>',
          ast.NotIn: 'not in', ast.Is: 'is', ast.IsNot: 'is not'}
 
 
+MUTATORS = {'append', 'extend', 'insert', 'update', 'add', 'pop', 'remove', 'clear', 'setdefault', 'popitem', 'sort',
+            'reverse', 'discard', 'write', 'writelines', '__setitem__', '__delitem__'}
+
+
 def C(v):
     return ('const', v)
 
@@ -468,14 +472,102 @@ class Walker:
             out.extend(self.block(body, s2, done))
         return out
 
+    # -- inlining of effectful module-level helpers -----------------------------------------------------------------------
+    def effectful_helper(self, name):
+        """A module-level function that mutates one of its parameters (labels.update inside a `shrink_labels(labels, ...)`
+        helper, `new_items.append` inside an `emit(...)` helper): its events belong to the caller's path."""
+        cache = self.__dict__.setdefault('_eff', {})
+        if name in cache:
+            return cache[name]
+        fn = self.facts.funcs.get(name)
+        res = False
+        if fn is not None and not fn.args.vararg and not fn.args.kwarg:
+            params = {a.arg for a in fn.args.args + fn.args.kwonlyargs}
+            for n in ast.walk(fn):
+                if isinstance(n, ast.Call) and isinstance(n.func, ast.Attribute) and isinstance(n.func.value, ast.Name) \
+                        and n.func.value.id in params and n.func.attr in MUTATORS:
+                    res = True
+                if isinstance(n, (ast.Assign, ast.AugAssign)):
+                    tg = n.targets if isinstance(n, ast.Assign) else [n.target]
+                    for t in tg:
+                        if isinstance(t, (ast.Subscript, ast.Attribute)) and isinstance(t.value, ast.Name) and t.value.id in params:
+                            res = True
+            # functions that are themselves pipeline passes (take and return the item list) are never inlined
+            if any(isinstance(n, ast.For) and isinstance(n.iter, ast.Name) and n.iter.id == fn.args.args[0].arg for n in fn.body if fn.args.args):
+                res = False
+        cache[name] = res
+        return res
+
+    def inline_call(self, call, st, done):
+        """[(state, return value)] after walking the helper's body with parameters bound to the argument values, or None."""
+        if not (isinstance(call, ast.Call) and isinstance(call.func, ast.Name) and call.func.id in self.facts.funcs
+                and call.func.id not in st.env and self.effectful_helper(call.func.id)):
+            return None
+        depth = self.__dict__.setdefault('_inline_depth', 0)
+        if depth >= 2:
+            return None
+        fn = self.facts.funcs[call.func.id]
+        pos = [a.arg for a in fn.args.args]
+        if len(call.args) > len(pos) or any(isinstance(a, ast.Starred) for a in call.args) or any(k.arg is None for k in call.keywords):
+            return None
+        env = {}
+        for p_, a in zip(pos, call.args):
+            env[p_] = self.sym(a, st)
+        for k in call.keywords:
+            env[k.arg] = self.sym(k.value, st)
+        defaults = dict(zip(pos[len(pos) - len(fn.args.defaults):], fn.args.defaults))
+        for a, d in zip(fn.args.kwonlyargs, fn.args.kw_defaults):
+            if d is not None:
+                defaults[a.arg] = d
+        for p_ in pos + [a.arg for a in fn.args.kwonlyargs]:
+            if p_ not in env:
+                if p_ not in defaults:
+                    return None
+                env[p_] = self.sym(defaults[p_], PathState())
+        caller_env = st.env
+        st.env = env
+        self._inline_depth = depth + 1
+        inner_done = []
+        try:
+            live = self.block(fn.body, st, inner_done)
+        finally:
+            self._inline_depth = depth
+        out = []
+        for s in live:
+            s.env = dict(caller_env)
+            out.append((s, C(None)))
+        for s in inner_done:
+            if s.end == 'return':
+                ret = [e for e in s.events if e[0] == 'return'][-1]
+                s.events.remove(ret)
+                s.end = None
+                s.end_node = None
+                s.env = dict(caller_env)
+                out.append((s, ret[1]))
+            else:
+                s.env = dict(caller_env)
+                done.append(s)
+        return out
+
     def stmt(self, node, st, done):
         if isinstance(node, ast.Expr):
             if isinstance(node.value, ast.Constant):
                 return [st]
+            inl = self.inline_call(node.value, st, done)
+            if inl is not None:
+                return [s for s, _ in inl]
             v = self.sym(node.value, st)
             st.events.append(self.effect(v, node))
             return [st]
         if isinstance(node, ast.Assign):
+            inl = self.inline_call(node.value, st, done)
+            if inl is not None:
+                out = []
+                for s, rv in inl:
+                    for tgt in node.targets:
+                        self.assign(tgt, rv, s, node)
+                    out.append(s)
+                return out
             v = self.sym(node.value, st)
             if v[0] in ('call', 'mcall', 'callv', 'new') and any(isinstance(n, ast.Call) for n in ast.walk(node.value)):
                 st.events.append(('value', v, node))
@@ -743,10 +835,6 @@ class Walker:
                 out2.extend(self.block(node.finalbody, s, done))
             out = out2
         return out
-
-
-MUTATORS = {'append', 'extend', 'insert', 'update', 'add', 'pop', 'remove', 'clear', 'setdefault', 'popitem', 'sort',
-            'reverse', 'discard', 'write', 'writelines', '__setitem__', '__delitem__'}
 
 
 def loop_paths(facts, fn, loop=None, loop_var_name=None, seed=None):
